@@ -4,7 +4,7 @@
    [m] over the in-memory decoder (Entry::from_bytes) and the streaming one (Entry::from_read).
    U64 = 2^64; [len] is the length as N. *)
 From GixV.Base Require Import Bytes BytesFacts Outcome.
-From GixV.C07 Require Import Model Spec ProofsHeader ProofsDelta.
+From GixV.C07 Require Import Model Spec ProofsHeader ProofsDelta ProofsSize.
 Local Open Scope N_scope.
 
 (* Every header kind, every size below 2^64, every base distance below 2^64 (0 included) and every
@@ -81,3 +81,25 @@ Proof.
   { repeat constructor; vm_compute; try discriminate; reflexivity. }
   repeat split; vm_compute; reflexivity.
 Qed.
+
+(* the two size headers in front of the instructions: git's varint of any size below 2^64 is read
+   back exactly, consuming exactly its bytes, in both builds *)
+Theorem delta_size_header_RT : forall bd n rest, n < U64 ->
+  decode_header_size bd (varint n ++ rest) = Ok (n, len (varint n)).
+Proof. exact decode_header_size_varint. Qed.
+
+(* The composition decode_entry performs for a delta whose base is supplied by the caller: for a
+   delta as git writes it (base size, target size, git-encoded valid instructions) the object
+   returned is exactly the target the instructions denote, with its size.  (The degenerate
+   empty base + empty instruction list is excluded: there the code panics, see NOTES.md.) *)
+Theorem decode_git_delta_exact : forall bd base is,
+  len base < U64 -> len (eval base is) < U64 -> Forall (valid base) is ->
+  (is <> [] \/ base <> []) ->
+  resolve_one bd base (varint (len base) ++ varint (len (eval base is)) ++ encode_delta is) =
+    Ok (len (eval base is), eval base is).
+Proof. exact resolve_one_git. Qed.
+
+(* the excluded degenerate case really panics (base empty, delta 00 00) *)
+Example decode_empty_delta_panics : resolve_one Debug [] [x00; x00] = Panic /\
+                                    resolve_one Release [] [x00; x00] = Panic.
+Proof. split; vm_compute; reflexivity. Qed.
